@@ -210,7 +210,11 @@ def generate(prop, rng):
             if not lab.startswith("T") and rng.random() < 0.2:
                 dest.add(lab)
         corrupt = {}
-        if cfg["src_kind"] == "generic" and cfg["verify"]:
+        # corrupt source objects under verify: unprotected ones in the generic class, and - bit rot in a
+        # cache or local remote - write-protected ones in the local class (which its own existence query trusts)
+        if cfg["verify"]:
+            if cfg["src_kind"] == "local" and cfg["dest_kind"] != "remote" and rng.random() < 0.5:
+                cfg["hardlink"] = True
             for lab in sorted(src):
                 if not lab.startswith("T") and rng.random() < 0.25:
                     corrupt[lab] = rng.choice(["append", "truncate", "rewrite"])
